@@ -94,7 +94,8 @@ class FakeConn:
     """recv(n) returns at most n bytes of the current scripted chunk (the rest of the chunk stays first in line);
     when the script is exhausted it returns b'' (peer closed).  A scripted chunk of size 0 is delivered as b''."""
 
-    def __init__(self, stream, sizes, cert_der):
+    def __init__(self, stream, sizes, cert_der, hold=None):
+        self.hold = hold                     # {'drained': Event, 'release': Event} or None
         self.chunks = []
         pos = 0
         for s in sizes:
@@ -108,6 +109,9 @@ class FakeConn:
     def recv(self, n):
         self.recv_sizes.append(n)
         if not self.chunks:
+            if self.hold is not None:            # the peer keeps the connection open until released
+                self.hold['drained'].set()
+                self.hold['release'].wait(120)
             return b''
         c = self.chunks[0]
         if len(c) <= n:
@@ -328,7 +332,7 @@ def default_spec(stream, sizes=None, cert=GOOD_CERT, tls=True, plugins=(), ts=16
 def run_spec(proxy, spec, dumps=True, settings_from=None, tls_from=None):
     """Run one scripted connection against the real session; returns (obs, conn)."""
     cert = make_cert(list(spec['cert'][0]), spec['cert'][1], spec['cert'][2] if len(spec['cert']) > 2 else None) if spec['cert'] is not None else None
-    conn = FakeConn(spec['stream'], spec['sizes'], cert)
+    conn = FakeConn(spec['stream'], spec['sizes'], cert, hold=spec.get('hold'))
     settings = []
     nph = max([len(p['phases']) for p in spec['plugins'] if p.get('phases')] or [0])
     scripts = [{} for _ in range(max(nph, 1))]
